@@ -139,10 +139,9 @@ theorem InvD_put {size : Nat} {h : Bytes} {es : List Bytes} (d : InvD size h es)
 
 /-! ## `put` -/
 
-/-- what a caller must respect for `put` to store what it was given: fewer than 65536 chunks (`as u16`),
-no chunk longer than a block (longer ones are cut), and a logical length at most 65535 bytes short of the
-block total (`bytes_remaining` is 16 bit).  Outside these bounds a2kit's `write_file` silently stores
-something else (see `design` note) and the refinement does not hold. -/
+/-- what the 16-bit directory fields can record: fewer than 65536 chunks, no chunk longer than a block, and a
+logical length at most 65535 bytes short of the block total.  `write_file` refuses everything else before it
+writes (since the repair `pascal-put-bounds`); an accepted `put` therefore satisfies it (`put_refines` derives it). -/
 structure PutArgsOk (f : FImg) : Prop where
   count : f.chunks.length < 65536
   clen : ∀ c ∈ f.chunks, c.2.length ≤ 512
@@ -346,8 +345,8 @@ theorem put_success {r : Raw} (h : Inv r) {f : FImg} {date : Bytes} (ha : PutArg
         omega
     simpa using hnot
 
-/-- **put refines the abstract specification** (for arguments within `PutArgsOk`) -/
-theorem put_refines {r : Raw} (h : Inv r) {f : FImg} {date : Bytes} (ha : PutArgsOk f) {res : R Nat} {r' : Raw}
+/-- **put refines the abstract specification** (all arguments: what cannot be recorded is a refused step) -/
+theorem put_refines {r : Raw} (h : Inv r) {f : FImg} {date : Bytes} {res : R Nat} {r' : Raw}
     (hop : put r f date = (res, r')) :
     Inv r' ∧ stepOk pascalParams (volOf r) (.put (upper f.fullPath) (putChunks f) f.eof f.fsType 0) (okB res) (volOf r') = true := by
   have hw := volOf_wf h
@@ -376,6 +375,25 @@ theorem put_refines {r : Raw} (h : Inv r) {f : FImg} {date : Bytes} (ha : PutArg
     exact done hop
   rw [getFileEntry_none h c5] at hop
   dsimp only at hop
+  by_cases b1 : f.chunks.length > 65535
+  case pos => rw [if_pos b1] at hop; exact done hop
+  rw [if_neg b1] at hop
+  by_cases b2 : f.eof > blockSize * f.chunks.length ∨ blockSize * f.chunks.length - f.eof > 65535
+  case pos => rw [if_pos b2] at hop; exact done hop
+  rw [if_neg b2] at hop
+  by_cases b3 : f.chunks.any (fun c => decide (c.2.length > blockSize)) = true
+  case pos => rw [if_pos b3] at hop; exact done hop
+  rw [if_neg b3] at hop
+  have ha : PutArgsOk f :=
+    { count := (by omega),
+      clen := (by
+        intro c hc
+        have hb3 : f.chunks.any (fun c => decide (c.2.length > blockSize)) = false := by simpa using b3
+        rw [List.any_eq_false] at hb3
+        have := hb3 c hc
+        have this' : ¬ (c.2.length > 512) := by simpa using this
+        omega),
+      rem := (by have : ¬ (f.eof > 512 * f.chunks.length ∨ 512 * f.chunks.length - f.eof > 65535) := b2; omega) }
   by_cases c6 : f.fsType > 8
   case pos => rw [if_pos c6] at hop; exact done hop
   rw [if_neg c6] at hop
@@ -452,6 +470,16 @@ theorem put_accepts {r : Raw} (h : Inv r) {f : FImg} {date : Bytes} (ha : PutArg
   dsimp only
   rw [if_neg hn0, if_neg (by simp [hv]), getFileEntry_none h hfresh]
   dsimp only
+  have hb3 : f.chunks.any (fun c => decide (c.2.length > blockSize)) = false := by
+    rw [List.any_eq_false]
+    intro c hc
+    have := ha.clen c hc
+    simp only [decide_eq_true_eq]
+    show ¬ c.2.length > 512
+    omega
+  rw [if_neg (by have := ha.count; omega),
+    if_neg (by have := ha.rem; show ¬ (f.eof > 512 * f.chunks.length ∨ 512 * f.chunks.length - f.eof > 65535); omega),
+    if_neg (by rw [hb3]; decide)]
   rw [if_neg (by omega), hnum, getAvailableBlocks_inv h, hav]
   dsimp only
   have c7 : Dir.numFiles { header := hdr r, entries := allEntries r } < (allEntries r).length := hslot
